@@ -3,10 +3,6 @@
 #ifndef VF_C17_SER_STUBS_H
 #define VF_C17_SER_STUBS_H
 /* <iostream> static initialiser object: no observable effect */
-#define VF_HAVE_x__ZNSt8ios_base4InitC1Ev
-VF_X void x__ZNSt8ios_base4InitC1Ev(char* self) { }
-#define VF_HAVE_x__ZNSt8ios_base4InitD1Ev
-VF_X void x__ZNSt8ios_base4InitD1Ev(char* self) { }
 /* std::out_of_range(const char*): the exception object is never inspected; the throw that follows is a fatal path */
 #define VF_HAVE_x__ZNSt12out_of_rangeC1EPKc
 VF_X void x__ZNSt12out_of_rangeC1EPKc(char* self, char* msg) { }
